@@ -220,7 +220,10 @@ type job struct {
 // Discharge proves the obligations; quick per-function batches first, then a portfolio on what is left.
 func Discharge(pre *Pre, fgs []*FuncGen, filter func(*Obligation) bool, timeoutMs int, workers int, confirm bool) []*Result {
 	var jobs []job
-	const chunk = 30
+	chunk := 30
+	if os.Getenv("GOVC_STANDALONE") != "" {
+		chunk = 1
+	}
 	for _, fg := range fgs {
 		var sel []*Obligation
 		for _, o := range fg.obls {
